@@ -162,50 +162,6 @@ var gens = []gen{
 	}},
 }
 
-// McIlroy's anti-quicksort adversary, run against the real SortFunc: returns the killer key sequence
-// prefreeze: the item at the middle sample position of choosePivot is given the smallest value beforehand, so
-// that the first choosePivot counts a swap and pdqsort does not leave through partialInsertionSort at once
-// (the plain adversary answers consistently with a sorted slice, which pdqsort detects in O(n)).
-func antiQuicksort(n int, prefreeze bool) []int64 {
-	val := make([]int, n)
-	gas := n - 1
-	for i := range val {
-		val[i] = gas
-	}
-	nsolid, candidate := 0, 0
-	if prefreeze && n >= 8 {
-		val[(n/4)*2] = 0
-		nsolid = 1
-	}
-	items := make([]int64, n)
-	for i := range items {
-		items[i] = int64(i)
-	}
-	less := func(xa, ya int64) bool {
-		x, y := int(xa), int(ya)
-		if val[x] == gas && val[y] == gas {
-			if x == candidate {
-				val[x] = nsolid
-			} else {
-				val[y] = nsolid
-			}
-			nsolid++
-		}
-		if val[x] == gas {
-			candidate = x
-		} else if val[y] == gas {
-			candidate = y
-		}
-		return val[x] < val[y]
-	}
-	bslice.SortFunc(items, less)
-	out := make([]int64, n)
-	for i := range out {
-		out[i] = int64(val[i])
-	}
-	return out
-}
-
 func tagged(keys []int64) []int64 {
 	out := make([]int64, len(keys))
 	for i, k := range keys {
@@ -230,7 +186,7 @@ func add(weight int, label, call string, in []int64, obs string, nontrivial bool
 		replay = map[string]interface{}{}
 	}
 	replay["call"] = call
-	if len(in) <= 400 {
+	if len(in) <= 2000 { // full input in the replay (only the 10^4..10^5 checker-only inputs are clipped)
 		replay["input"] = in
 	} else {
 		replay["input_len"] = len(in)
@@ -242,9 +198,9 @@ func add(weight int, label, call string, in []int64, obs string, nontrivial bool
 	cases = append(cases, pending{term, label, nontrivial, replay, weight})
 	if strings.HasPrefix(call, "KSortFunc") || strings.HasPrefix(call, "KSortStable") || call == "KSortOrdered" {
 		sortSeen++
-		if strings.Contains(label, "anti-quicksort") && strings.HasPrefix(call, "KSortFunc OKey") {
+		if strings.Contains(label, "[targeted]") && strings.HasPrefix(call, "KSortFunc") {
 			pathAdv = append(pathAdv, term)
-		} else if len(in) >= 13 && len(in) <= 300 && sortSeen%6 == 0 {
+		} else if len(in) >= 13 && len(in) <= 300 && sortSeen%6 == 0 && len(pathOthers) < 40 {
 			pathOthers = append(pathOthers, term)
 		}
 	}
@@ -475,19 +431,8 @@ func main() {
 			runLib(g.name, g.f(rng, pickLen(maxModel)))
 		}
 	}
-	// adversarial: anti-quicksort against the real code (drives limit to 0: heapsort fallback), several lengths
-	advLens := []int{40, 64, 100, 150, 200, 256, 300}
-	if thorough {
-		advLens = append(advLens, 500, 1000, 2000)
-	}
-	for _, n := range advLens {
-		for _, pre := range []bool{true, false} {
-			keys := antiQuicksort(n, pre)
-			runSortFunc("anti-quicksort", keys, true)
-			runSortFunc("anti-quicksort", keys, false)
-			runSortOrdered("anti-quicksort", keys)
-		}
-	}
+	// targeted: adversary-built killers (heapsort fallback) and one input family per pdqsort branch, through every entry point
+	doTargeted(rng, thorough, maxModel, runSortOrdered, runSortFunc)
 	// long inputs through the verified output checkers only
 	for i := 0; i < bigs; i++ {
 		n := bigMax
@@ -498,7 +443,7 @@ func main() {
 		runBig(g.name, g.f(rng, n), i%2 == 0)
 	}
 	if thorough {
-		runBig("anti-quicksort", antiQuicksort(20000, true), false)
+		runBig("killer", adversary(20000, 1, false, rng.Fork()), false)
 	}
 
 	// ---------- 1b. families added after the seeded-change rounds ----------
@@ -511,6 +456,14 @@ func main() {
 	doComparePairs(rng, thorough) // prefixes with every length difference, both directions; through the wrappers too
 	// ---------- 3. comparators ----------
 	doComparators(rng, thorough)
+
+	// ---------- branch coverage of the targeted inputs, decided by the Coq model ----------
+	notes, evaluated, missing := evalPaths(o.Out)
+	w.Notes["model_branches"] = notes
+	if evaluated {
+		add(1, "coverage: the targeted inputs reach every pdqsort branch (heapsort fallback, breakPatterns, partitionEqual, partialInsertionSort true/false, reverseRange)",
+			fmt.Sprintf("KDiffOrdered %s", vhlib.Bool(len(missing) == 0)), nil, "ONone", true, map[string]interface{}{"branches_not_reached": missing})
+	}
 
 	// ---------- emit, spreading the heavy cases over the shards ----------
 	sort.SliceStable(cases, func(i, j int) bool { return cases[i].weight > cases[j].weight })
@@ -538,8 +491,7 @@ func main() {
 			w.Case(c.term, c.label, c.nontrivial, nil, c.replay)
 		}
 	}
-	w.Notes["model_branches"] = evalPaths(o.Out)
-	w.Close(o, "one case = one call of a comparator / sort / search of the anchored files on a generated input (14 slice generators incl. sorted, reversed, few-distinct, organ-pipe, nearly-sorted, duplicate blocks, two runs, plus McIlroy's anti-quicksort adversary run against the real SortFunc, ascending/descending inputs of length 50..300 with one or two displaced elements at every small offset and near the end (Sort, SortFunc, Ordered wrappers), every permutation of sizes 0..6 (distinct keys and ties) through GetSortedValues on arraylist / linkedhashset / treeset / hashset / doublylinkedlist, the lists' Sort, bcomparator.Sort and SortComparator, and every sort entry point (SortFunc, SortStableFunc, SortComparator and their ToSlice / ToBSlice variants, Sort) of all eight bslice wrapper flavours on tagged pairs with many ties, the Stable ones judged for stability; lengths 0..300 quick / 0..2000 thorough through the Coq model with the less-call sequence compared by count and rolling hash, up to 2*10^4 / 10^5 through the verified output checker only; comparators on type extremes and random pairs); distinct = distinct case terms; non-trivial = length >= 2 for slices, any comparator pair")
+	w.Close(o, "one case = one call of a comparator / sort / search of the anchored files on a generated input (14 slice generators incl. sorted, reversed, few-distinct, organ-pipe, nearly-sorted, duplicate blocks, two runs, plus a targeted family: McIlroy-style adversaries (candidate rule with a pre-frozen sample, first-argument, second-argument and randomised freezing) run once per run against the real SortFunc, sizes 50..2000, whose killer VALUES are replayed through Sort on int64 / int / int32 / float64 / string, SortFunc, SortStableFunc and the BSlice methods, together with one input per remaining pdqsort branch (partitionEqual, partialInsertionSort true/false, reverseRange); the branches the model-replayed ones take are counted in Coq (notes.model_branches, heapsort_fallback_cases) and a run in which a required branch is not reached reports a kind-1 coverage case, ascending/descending inputs of length 50..300 with one or two displaced elements at every small offset and near the end (Sort, SortFunc, Ordered wrappers), every permutation of sizes 0..6 (distinct keys and ties) through GetSortedValues on arraylist / linkedhashset / treeset / hashset / doublylinkedlist, the lists' Sort, bcomparator.Sort and SortComparator, and every sort entry point (SortFunc, SortStableFunc, SortComparator and their ToSlice / ToBSlice variants, Sort) of all eight bslice wrapper flavours on tagged pairs with many ties, the Stable ones judged for stability; lengths 0..300 quick / 0..2000 thorough through the Coq model with the less-call sequence compared by count and rolling hash, up to 2*10^4 / 10^5 through the verified output checker only; comparators on type extremes and random pairs); distinct = distinct case terms; non-trivial = length >= 2 for slices, any comparator pair")
 }
 
 // diffOrdered: transform zsortfunc.go textually into what zsortordered.go must be and compare
